@@ -59,6 +59,7 @@ type BucketSet struct {
 	m    map[string]*struct {
 		r       L
 		lastUse time.Time
+		inUse   int
 	}
 }
 
@@ -70,6 +71,7 @@ func NewBucketSet(new_ func() L, reapInterval time.Duration, maxBuckets int) *Bu
 		m: map[string]*struct {
 			r       L
 			lastUse time.Time
+			inUse   int
 		}{},
 	}
 }
@@ -91,7 +93,7 @@ func (r *BucketSet) take(key string) L {
 		now := time.Now()
 		// Attempt to get rid of stale buckets.
 		for k, v := range r.m {
-			if now.Sub(v.lastUse) > r.ReapInterval {
+			if v.inUse == 0 && now.Sub(v.lastUse) > r.ReapInterval {
 				// Drop the bucket, if there happen to be any waiting Take for it.
 				// It will return 'false', but this is fine for us since this
 				// whole 'reaping' process will run only when we are under a
@@ -113,6 +115,7 @@ func (r *BucketSet) take(key string) L {
 		r.m[key] = &struct {
 			r       L
 			lastUse time.Time
+			inUse   int
 		}{
 			r:       r.New(),
 			lastUse: time.Now(),
@@ -121,7 +124,20 @@ func (r *BucketSet) take(key string) L {
 	}
 	r.m[key].lastUse = time.Now()
 
+	// Pin the bucket until the matching Release (or a failed Take) so it is
+	// not reaped, together with the permits held in it, while it is in use.
+	bucket.inUse++
+
 	return bucket.r
+}
+
+func (r *BucketSet) unpin(key string) {
+	r.mLck.Lock()
+	defer r.mLck.Unlock()
+
+	if bucket, ok := r.m[key]; ok && bucket.inUse > 0 {
+		bucket.inUse--
+	}
 }
 
 func (r *BucketSet) Take(key string) bool {
@@ -134,7 +150,11 @@ func (r *BucketSet) Take(key string) bool {
 		// No free bucket, see the BucketSet description.
 		return false
 	}
-	return bucket.Take()
+	if !bucket.Take() {
+		r.unpin(key)
+		return false
+	}
+	return true
 }
 
 func (r *BucketSet) Release(key string) {
@@ -149,6 +169,9 @@ func (r *BucketSet) Release(key string) {
 	if !ok {
 		return
 	}
+	if bucket.inUse > 0 {
+		bucket.inUse--
+	}
 	bucket.r.Release()
 }
 
@@ -162,5 +185,9 @@ func (r *BucketSet) TakeContext(ctx context.Context, key string) error {
 		// No free bucket, see the BucketSet description.
 		return ErrNoBuckets
 	}
-	return bucket.TakeContext(ctx)
+	if err := bucket.TakeContext(ctx); err != nil {
+		r.unpin(key)
+		return err
+	}
+	return nil
 }
